@@ -4,6 +4,7 @@ import TongoProofs.Lemmas.TlbSpec
 import TongoProofs.Lemmas.TlbCanon
 import TongoProofs.Lemmas.BitStringBytes
 import TongoProofs.Lemmas.BitStringOps
+import TongoProofs.Lemmas.BitStringCore
 /-! # The ideal level of the TL-B codec refines C06's specification of `boc.BitString`
 
 `Tlb.Builder` / `Tlb.Slice` (TongoModel/Tlb/Basic.lean) are lists of bits; C06 proves that the byte-level model of
@@ -68,7 +69,9 @@ theorem writeBytes_refines (bs : List UInt8) : WriteRefines (fun b => b.writeByt
 theorem writeUnary_refines (n : Nat) : WriteRefines (fun b => b.writeUnary n) (.writeUnary n) :=
   write_refines_of (List.replicate n true ++ [false]) (fun b => by
     simp only [Builder.writeUnary, Builder.writeBits, List.length_append, List.length_replicate, List.length_cons,
-      List.length_nil]) rfl
+      List.length_nil]) (by
+    show Ideal.writeUnary n = _
+    exact Tongo.BitString.writeUnary_spec_eq n)
 
 theorem bitLen_eq (n : Nat) : Builder.bitLen n = Ideal.bitLength n := rfl
 
